@@ -1247,7 +1247,10 @@ class ChargeConjugateReplacement(Visitor):  # type: ignore[misc]
         assert tree.data == "particle"
         pname = tree.children[0].value
         ccpname = find_charge_conjugate_match(pname, self.charge_conj_defs)
-        self.charge_conj_defs[pname] = ccpname
+        # Remember the match - unless there is none: the table is also read backwards,
+        # and "no known conjugate" must not turn into a pair declaration
+        if ccpname != f"ChargeConj({pname})":
+            self.charge_conj_defs[pname] = ccpname
         tree.children[0].value = ccpname
 
 
